@@ -181,6 +181,9 @@ def run_check(prop, tier, seed, extra=None):
     counters = {}
     samples = []
     streams_cfg = cfg['quick'] if tier == 'quick' else cfg.get('thorough', cfg['quick'])
+    # how long one stream may take before its workers are taken for hung (engine.run_stream): far above what any stream
+    # needs on a loaded machine (quick streams take under a minute, thorough ones a few minutes)
+    os.environ.setdefault('VERIF_STREAM_TIMEOUT', '900' if tier == 'quick' else '5400')
     runner = cfg.get('runner')
     if runner:
         # property with its own machinery (state machines, programs, ...): returns the same kind of record
